@@ -224,7 +224,9 @@ func genC04(t *rapid.T) *c04Scenario {
 	return sc
 }
 
-type c04Handler struct{ f func(*client.Conn, *client.Line) }
+type c04Handler struct {
+	f func(*client.Conn, *client.Line)
+}
 
 func (h c04Handler) Handle(c *client.Conn, l *client.Line) { h.f(c, l) }
 
